@@ -40,7 +40,7 @@ TInit == Init /\ l = 1 /\ rej = {} /\ fresh = TRUE /\ skipping = FALSE /\ skippe
 Reset == /\ l <= Len(Trace) /\ Ev.first /\ ~fresh
          /\ content' = [i \in Slots |-> [n \in Names |-> 0]] /\ mtime' = [i \in Slots |-> [n \in Names |-> 0]]
          /\ loads' = [i \in Loaders |-> [n \in Names |-> 0]] /\ cache' = [n \in Names |-> NoEntry]
-         /\ cacheOn' = TRUE /\ autoReload' = InitAuto /\ clock' = 1 /\ hist' = <<>>
+         /\ cacheOn' = TRUE /\ autoReload' = InitAuto /\ clock' = 1 /\ hist' = <<>> /\ remembered' = [n \in Names |-> 0]
          /\ fresh' = TRUE /\ skipping' = FALSE
          /\ UNCHANGED <<l, rej, skipped>>
 
